@@ -78,7 +78,7 @@ META = dict(
     assumptions=["single Session, single thread, SQLite file database", "gc disabled; collection points are the enumerated gc ops"],
     bounds=dict(
         quick="plain world depth <= 3 (full alphabet, ~40 ops per state); polymorphic depth <= 3; natural-key depth <= 5; expire_on_commit True",
-        thorough="plain depth <= 4; polymorphic depth <= 4; natural-key depth <= 6 (<= 5 with expire_on_commit False); expire_on_commit True and False",
+        thorough="plain depth <= 4; polymorphic depth <= 4; natural-key depth <= 5; expire_on_commit True and False",
     ),
 )
 
@@ -105,7 +105,7 @@ WORLDS = dict(
         record_events=False,
     ),
 )
-DEPTH = dict(quick=dict(plain=3, poly=3, natural=5), thorough=dict(plain=4, poly=4, natural=6))
+DEPTH = dict(quick=dict(plain=3, poly=3, natural=5), thorough=dict(plain=4, poly=4, natural=5))
 EOCS = dict(quick=(True,), thorough=(True, False))
 MAX_BORN = 3
 TYPE_CLASS = {"engineer": "Engineer", "manager": "Manager", "person": "Person"}
@@ -453,7 +453,7 @@ def run_shard(shard, tier, rec):
                     key0 = (world, eoc, ms0.canon(), W.deep_canon(w0))
                 finally:
                     w0.close()
-                depth = DEPTH[tier][world] - (1 if (tier == "thorough" and world == "natural" and not eoc) else 0)
+                depth = DEPTH[tier][world]
                 d = W.explore_levels(
                     rec,
                     ID,
